@@ -1,14 +1,219 @@
-(* C05 - red-black tree = ordered map, balanced, iterators stable.
-   Only statements closed by [exact] and their assumptions. *)
-From Coq Require Import List ZArith.
-From Herc Require Import RBTree.Model RBTree.InsertProofs RBTree.DeleteProofs.
+(* C05 - red-black tree = ordered map, balanced, iterators stable (internal/rbtree/rbtree.go).
+   Only statements closed by [exact] and their assumptions, plus non-vacuity examples.
+
+   Vocabulary (definitions in coq/theories/RBTree):
+     tree            recursive model of one RBTree; every node carries the arena index it occupies
+     insert / delete_key / it_find_ge / it_find_le / get / min_id / it_max / next_in / prev_in / tsize
+                     the model of Insert / doDelete / FindGE / FindLE / Get / Min / Max / Next / Prev / Len
+     elems t         in-order list of (node id, key, value): the abstraction to the specification
+     s_insert, s_delete, s_find_ge, ...   the sorted association list of Spec.v
+     is_redblack t   := exists n, RB t Red n  (C05_rb_meaning spells it out); bst t: search-tree order
+     cells 0 t       the arena image (key, value, parent, left, right, colour per node id)
+     state, step, run, Inv, all_defined, spec_run, abs   several trees on one allocator (SeqProofs.v) *)
+From Coq Require Import List ZArith Bool.
+From Herc Require Import RBTree.Model RBTree.Spec RBTree.Arena RBTree.InsertProofs RBTree.DeleteProofs
+  RBTree.MapProofs RBTree.LookupProofs RBTree.HeightProofs RBTree.ArenaProofs RBTree.SeqProofs RBTree.Main.
 Import ListNotations.
 Open Scope Z_scope.
 
-Theorem C05_insert_rb : forall ni nk nv t, is_redblack t -> is_redblack (fst (fst (insert ni nk nv t))).
-Proof. exact insert_RB. Qed.
+(* ---------- the tree is a sorted map ---------- *)
+
+(* Insert: the entry list becomes the sorted-list insertion (nothing happens when the key is present),
+   the boolean tells whether the key was absent, the iterator is the new node (the empty iterator
+   otherwise) *)
+Theorem C05_insert_map : forall ni nk nv t, bst t ->
+  let '(t', ok, it) := insert ni nk nv t in
+  elems t' = s_insert ni nk nv (elems t) /\
+  ok = negb (s_mem nk (elems t)) /\
+  it = (if s_mem nk (elems t) then 0 else ni).
+Proof. exact insert_map. Qed.
+Print Assumptions C05_insert_map.
+
+(* DeleteWithKey / DeleteWithIterator (doDelete): exactly the entry with that key disappears; all
+   other entries keep their place AND their node id; the "unspecified" answer of the model does not
+   occur on red-black trees *)
+Theorem C05_delete_map : forall x t, bst t ->
+  match delete_key x t with
+  | DDone t' => s_mem x (elems t) = true /\ elems t' = s_delete x (elems t)
+  | DNotFound => s_mem x (elems t) = false /\ s_delete x (elems t) = elems t
+  | DUnspec => ~ is_redblack t
+  end.
+Proof. exact delete_map. Qed.
+Print Assumptions C05_delete_map.
+
+(* membership, Get, FindGE, FindLE, Min, Max, Len, the item behind an iterator, Next, Prev, and the
+   complete forward and backward walks answer like the sorted list *)
+Theorem C05_lookup_map : forall t, bst t -> NoDup (ids t) -> ids_ok t ->
+  (forall x, mem x t = s_mem x (elems t)) /\
+  (forall x, get x t = s_get x (elems t)) /\
+  (forall x, it_find_ge x t = pos_fwd (s_find_ge x (elems t))) /\
+  (forall x, it_find_le x t = Some (pos_bwd (s_find_le x (elems t)))) /\
+  min_id t = pos_fwd (s_min (elems t)) /\
+  it_max t = pos_bwd (s_max (elems t)) /\
+  tsize t = Z.of_nat (length (elems t)) /\
+  (forall m, item_of m t = s_item m (elems t)) /\
+  (forall m, next_in m t limit = option_map pos_fwd (s_next m (elems t))) /\
+  (forall m, prev_in m t neg_limit = option_map pos_bwd (s_prev m (elems t))) /\
+  walk_fwd (S (length (elems t))) (min_id t) t = eids (elems t) /\
+  walk_bwd (S (length (elems t))) (it_max t) t = rev (eids (elems t)).
+Proof. exact lookup_map. Qed.
+Print Assumptions C05_lookup_map.
+
+(* ---------- red-black invariants ---------- *)
+
+(* what is_redblack means: black root, no red node with a red child, the same number of black nodes
+   on every path (bh computes it, None when two paths differ) *)
+Theorem C05_rb_meaning : forall t,
+  is_redblack t <-> is_red t = false /\ no_red_red t = true /\ exists n, bh t = Some n.
+Proof. exact redblack_iff. Qed.
+Print Assumptions C05_rb_meaning.
+
+Theorem C05_insert_rb : forall ni nk nv t, is_redblack t /\ bst t ->
+  is_redblack (fst (fst (insert ni nk nv t))) /\ bst (fst (fst (insert ni nk nv t))).
+Proof. exact insert_rb. Qed.
 Print Assumptions C05_insert_rb.
 
-Theorem C05_delete_rb : forall x t t', is_redblack t -> delete_key x t = DDone t' -> is_redblack t'.
-Proof. exact delete_key_RB. Qed.
+Theorem C05_delete_rb : forall x t t', is_redblack t /\ bst t -> delete_key x t = DDone t' ->
+  is_redblack t' /\ bst t'.
+Proof. exact delete_rb. Qed.
 Print Assumptions C05_delete_rb.
+
+(* depth: no path has more than 2*log2(size+1) nodes *)
+Theorem C05_height : forall t, is_redblack t -> Z.of_nat (height t) <= 2 * Z.log2 (tsize t + 1).
+Proof. exact redblack_height_log. Qed.
+Print Assumptions C05_height.
+
+(* the 2^bh form: n black nodes on every path, at most 2n nodes on a path, at least 2^n - 1 nodes *)
+Theorem C05_height_pow : forall t, is_redblack t ->
+  exists n, (height t <= 2 * n)%nat /\ 2 ^ Z.of_nat n <= tsize t + 1.
+Proof. exact redblack_height_pow. Qed.
+Print Assumptions C05_height_pow.
+
+(* ---------- iterators ---------- *)
+
+(* an iterator is a node id.  A node other than the inserted one shows the same key and value after
+   an insertion; a node other than the deleted one shows the same key and value after a deletion -
+   including the case where the deleted node has two children and its predecessor is moved into
+   its place (swapNodes): the predecessor keeps its id *)
+Theorem C05_iterators_stable : forall t, bst t ->
+  (forall ni nk nv m, m <> ni -> item_of m (fst (fst (insert ni nk nv t))) = item_of m t) /\
+  (forall x t' m, delete_key x t = DDone t' -> (forall v, item_of m t <> Some (x, v)) ->
+                  item_of m t' = item_of m t).
+Proof. exact iterators_stable. Qed.
+Print Assumptions C05_iterators_stable.
+
+(* the same across ANY operation on ANY tree of the allocator, in every state satisfying the
+   invariant: the element (tree tj, node m) keeps its key and value unless this operation removes it
+   (DeleteWithKey of its key, DeleteWithIterator at it, Erase of its tree) *)
+Theorem C05_iterators_stable_step : forall s o tj m k v, Inv s -> defined s o ->
+  item_of m (get_tree s tj) = Some (k, v) -> ~ removes o tj m k ->
+  item_of m (get_tree (fst (step s o)) tj) = Some (k, v).
+Proof. exact step_stable. Qed.
+Print Assumptions C05_iterators_stable_step.
+
+(* ---------- arena ---------- *)
+
+(* the parent links of the arena image: children name their parent, every node but the root hangs
+   below a node that names it as a child, only the root has parent 0; one cell per node id *)
+Theorem C05_arena_links : forall t, ids_nonzero t ->
+  links_consistent (root_id t) (cells 0 t) /\ map fst (cells 0 t) = ids t.
+Proof. exact arena_links. Qed.
+Print Assumptions C05_arena_links.
+
+(* soundness of the oracle that judges a snapshot of the REAL arena (used by the replay driver):
+   acceptance means the snapshot is the arena image of a red-black search tree of logarithmic depth
+   whose entries, node ids included, are the specification's *)
+Theorem C05_oracle_sound : forall a h spec,
+  links_okb a h = true -> snapshot_rb_okb a h = true -> snapshot_map_okb a h spec = true ->
+  exists t,
+    (forall i c, In (i, c) (cells 0 t) -> a i = c) /\ h = header_of t /\
+    is_redblack t /\ bst t /\ elems t = spec /\
+    Z.of_nat (height t) <= 2 * Z.log2 (tsize t + 1).
+Proof. exact snapshot_oracle_sound. Qed.
+Print Assumptions C05_oracle_sound.
+
+(* ---------- every reachable state of every operation sequence, several trees on one allocator ---------- *)
+
+(* one step: the invariant is preserved and the step is a step of the specification with the same
+   result.  "defined" excludes only what the Go API leaves undefined or cannot produce: iterators
+   that do not point into the tree, node indexes malloc cannot return, the 2^32 limit. *)
+Theorem C05_step : forall s o, Inv s -> defined s o ->
+  Inv (fst (step s o)) /\ spec_step (abs s) o = (abs (fst (step s o)), snd (step s o)).
+Proof. exact step_refines. Qed.
+Print Assumptions C05_step.
+
+(* operations on one tree leave every other tree of the allocator untouched *)
+Theorem C05_frame : forall s o tj,
+  (match o with
+   | OInsert ti _ _ _ | ODeleteKey ti _ | ODeleteIt ti _ | OErase ti => ti <> tj
+   | OClone _ dst _ => dst <> tj
+   | _ => True
+   end) -> get_tree (fst (step s o)) tj = get_tree s tj.
+Proof. exact step_frame. Qed.
+Print Assumptions C05_frame.
+
+(* any sequence from n empty trees, any choice of node indexes the allocator can make: the run is a
+   run of n sorted maps with the same results, and in the state reached every tree is a red-black
+   search tree of logarithmic depth with consistent links whose node ids are distinct, valid, and
+   disjoint from the ids of every other tree *)
+Theorem C05_sequences : forall n ops, all_defined (init n) ops ->
+  let s := fst (run (init n) ops) in
+  Inv s /\
+  spec_run (repeat [] n) ops = (abs s, snd (run (init n) ops)) /\
+  forall ti, let t := get_tree s ti in
+    is_redblack t /\ bst t /\ NoDup (ids t) /\ ids_ok t /\
+    Z.of_nat (height t) <= 2 * Z.log2 (tsize t + 1) /\
+    links_consistent (root_id t) (cells 0 t) /\
+    (forall tj i, tj <> ti -> In i (ids t) -> ~ In i (ids (get_tree s tj))).
+Proof. exact sequences. Qed.
+Print Assumptions C05_sequences.
+
+(* ---------- non-vacuity ---------- *)
+
+(* three trees on one allocator: a root with two children is deleted (predecessor swap), a node is
+   deleted through an iterator, gaps are reused, a tree is cloned and one erased, both assertions fire *)
+Definition ex_ops : list op :=
+  [OInsert 0 50 500 1; OInsert 0 30 300 2; OInsert 0 70 700 3; OInsert 0 20 200 4; OInsert 0 40 400 5;
+   OInsert 0 60 600 6; OInsert 0 80 800 7; OInsert 1 5 55 8; OInsert 0 40 1 9;
+   ODeleteKey 0 50; ODeleteKey 0 51;
+   OFindGE 0 45; OFindLE 0 45; OGet 0 60; OGet 0 61; OMin 0; OMax 0; ONext 0 5; OPrev 0 5; OLen 0;
+   ODeleteIt 0 2; OInsert 0 55 1 1; OClone 0 2 [2; 9; 10; 11; 12; 13];
+   OErase 1; ONext 0 0; OPrev 2 0; OMax 1; ODeleteIt 2 4294967295].
+
+Example C05_ex_defined : all_defined (init 3) ex_ops.
+Proof. vm_compute. repeat split. Qed.
+
+Example C05_ex_results : snd (run (init 3) ex_ops) =
+  [RIns true 1; RIns true 2; RIns true 3; RIns true 4; RIns true 5; RIns true 6; RIns true 7; RIns true 8;
+   RIns false 0; RBool true; RBool false; RIt 6; RIt 5; RVal (Some 600); RVal None; RIt 4; RIt 7; RIt 6; RIt 2;
+   RLen 6; RUnit; RIns true 1; RUnit; RUnit; RPanic; RIt 13; RIt 4294967295; RPanic].
+Proof. vm_compute. reflexivity. Qed.
+
+Example C05_ex_state : abs (fst (run (init 3) ex_ops)) =
+  [[(4, 20, 200); (5, 40, 400); (1, 55, 1); (6, 60, 600); (3, 70, 700); (7, 80, 800)]; [];
+   [(2, 20, 200); (9, 40, 400); (10, 55, 1); (11, 60, 600); (12, 70, 700); (13, 80, 800)]].
+Proof. vm_compute. reflexivity. Qed.
+
+(* the predecessor swap: node 5 (key 40) takes the place of the deleted root and keeps its id *)
+Example C05_ex_swap :
+  let s := fst (run (init 3) (firstn 10 ex_ops)) in
+  root_id (get_tree s 0) = 5 /\ item_of 5 (get_tree s 0) = Some (40, 400) /\
+  rb_okb (get_tree s 0) = true /\ height (get_tree s 0) = 3%nat.
+Proof. vm_compute. repeat split. Qed.
+
+(* the hypotheses of the single-tree theorems hold of a non-trivial tree, and the oracle accepts its
+   arena image *)
+Example C05_ex_tree :
+  let t := get_tree (fst (run (init 3) ex_ops)) 0 in
+  rb_okb t = true /\ tsize t = 6 /\
+  (let a := fun i => match find (fun x => fst x =? i) (cells 0 t) with Some (_, c) => c | None => mkCell 0 0 0 0 0 false end in
+   links_okb a (header_of t) = true /\ snapshot_rb_okb a (header_of t) = true /\
+   snapshot_map_okb a (header_of t) (elems t) = true).
+Proof. vm_compute. repeat split. Qed.
+
+(* the oracle rejects a tree with a red-red violation and an unbalanced one *)
+Example C05_ex_reject :
+  rb_okb (T Black (T Red (T Red E 3 1 0 E) 2 2 0 E) 1 3 0 E) = false /\
+  rb_okb (T Black (T Black E 2 2 0 E) 1 3 0 E) = false /\
+  rb_okb (T Black (T Red E 2 5 0 E) 1 3 0 E) = false.
+Proof. vm_compute. repeat split. Qed.
